@@ -275,3 +275,27 @@ def run_scaled(ctx, fmt, n, alpha, trace_count, deviations=True):
     exposed = selftest(ctx, fmt, refs)
     ctx.stage('selftest-engine-%s' % fmt, wrong_stub_exposed_on_chunkings=exposed)
     return refs, tot
+
+
+def apalache_stage(ctx):
+    """Unbounded window arithmetic: IndInv of CaptureRegionInd is inductive (Apalache)."""
+    import os
+    r1 = tlc.apalache('CaptureRegionInd', 'Init', 'IndInv', 0, ctx.work)
+    r2 = tlc.apalache('CaptureRegionInd', 'IndInit', 'IndInv', 1, ctx.work)
+    if (r1, r2) != ('ok', 'ok'):
+        raise MachineryError('CaptureRegionInd: IndInv is not inductive (%s, %s)' % (r1, r2))
+    # binding self-test of the proof step: a wrong append rule must break inductiveness
+    src = open(os.path.join(tlc.SPEC_DIR, 'CaptureRegionInd.tla')).read()
+    bad = src.replace("n' = Min(len, n + (p - wanted))", "n' = Min(len, n + k)").replace(
+        'MODULE CaptureRegionInd', 'MODULE CaptureRegionBad')
+    if bad == src:
+        raise MachineryError('could not derive the negative Apalache module')
+    path = os.path.join(ctx.work, 'CaptureRegionBad.tla')
+    with open(path, 'w') as fh:
+        fh.write(bad)
+    r3 = tlc.apalache('CaptureRegionBad', 'IndInit', 'IndInv', 1, ctx.work, source=path)
+    if r3 != 'violation':
+        raise MachineryError('Apalache accepted a wrong append rule (%s)' % r3)
+    ctx.cov['obligations'] = ctx.cov.get('obligations', 0) + 2
+    ctx.cov['discharged'] = ctx.cov.get('discharged', 0) + 2
+    ctx.stage('apalache-inductive', base=r1, step=r2, wrong_rule=r3)
